@@ -27,6 +27,9 @@ func c17Families() []urlFamily {
 		famPath(b, "/news/story", ""),
 		famSuffix(b, "/news/story", "-", ".html"),
 		famSuffix(b, "/news/story", "_", ".html"),
+		// file-name suffix pagers below a dated (year / month) directory
+		famSuffix(b, "/story/2014/07/title", "_Page", ".html"),
+		famSuffix(b, "/2019/11/a-long-read", "-", ""),
 	}
 }
 
@@ -54,9 +57,9 @@ func c17Markups(all bool) []pagerMarkup {
 		for wi, w := range wraps {
 			for ci, c := range curs {
 				for ni, nv := range navs {
-					// quick tier: every decoration of the current page twice, with varying
+					// quick tier: every decoration of the current page once, with varying
 					// separator, wrapper and navigation anchors
-					if !all && !((si == ci%3 && wi == ci%4 && ni == ci%3) || (si == (ci+1)%3 && wi == (ci+2)%4 && ni == (ci+2)%3)) {
+					if !all && !(si == ci%3 && wi == (ci/3)%4 && ni == (ci+1)%3) {
 						continue
 					}
 					out = append(out, pagerMarkup{Sep: s, Open: w[0], Close: w[1], Cur: c, Nav: nv})
